@@ -272,9 +272,16 @@ impl<'a, T> ChordsV2<'a, T> {
         debug_assert!(self.queue.capacity() < 255);
         self.prev_queue_len = self.queue.len() as u8;
 
+        let len_before = self.queue.len();
         self.drain_virtual_keys(drainq);
         self.drain_releases(drainq);
+        let drained = self.queue.len() != len_before;
         self.process_presses(active_layer);
+        if drained {
+            // The queue changed in this pass; the next pass must look at it again even if its
+            // length happens to be what it was before this pass.
+            self.ticks_until_next_state_change = 0;
+        }
     }
 
     fn drain_virtual_keys(&mut self, drainq: &mut SmolQueue) {
